@@ -12,6 +12,7 @@ import (
 	"errors"
 	"fmt"
 	"math/big"
+	"strings"
 	"sync"
 
 	"github.com/cloudflare/circl/oprf"
@@ -503,6 +504,44 @@ func attesterScenario() instance {
 		}
 		if e1 == nil {
 			return "", fmt.Errorf("concurrent VerifyRequest accepted a request whose ciphertext was altered after signing")
+		}
+		return "ok", nil
+	}
+	return in
+}
+
+// t3SpellingsScenario: one issuer evaluates, at once, an honest request for its registered origin and
+// requests for two other spellings of that name (capitals, trailing dot), which are not registered:
+// the honest one is served, the others are refused, and nobody writes to the shared issuer.
+func t3SpellingsScenario() instance {
+	k := px.FreshRSA(1)
+	iss := type3.NewRateLimitedIssuer(k)
+	idx, err := ecdsa.CreateKey(elliptic.P384(), fill("indexkey", 48))
+	must(err)
+	must(iss.AddOriginWithIndexKey(originName, idx))
+	kid := type3.NewRateLimitedIssuer(px.RSAKeys()[1]).TokenKeyID()
+	nk := iss.NameKey()
+	mk := func(i int, name string) []byte {
+		c := type3.NewRateLimitedClientFromSecret(fill(fmt.Sprintf("secret%d", i), 48))
+		st, err := c.CreateTokenRequest(fill("chal", 32), fill(fmt.Sprintf("n%d", i), 32), fill(fmt.Sprintf("blind%d", i), 48), kid, &px.RSAKeys()[1].PublicKey, name, nk)
+		must(err)
+		return append([]byte{}, st.Request().Marshal()...)
+	}
+	w0, w1, w2 := mk(0, originName), mk(1, strings.ToUpper(originName[:6])+originName[6:]), mk(2, originName[:30]+".")
+	var r0, r1, r2 []byte
+	var e0, e1, e2 error
+	in := instance{}
+	in.bodies = []func(){
+		func() { r0, _, e0 = iss.Evaluate(w0) },
+		func() { r1, _, e1 = iss.Evaluate(w1) },
+		func() { r2, _, e2 = iss.Evaluate(w2) },
+	}
+	in.check = func() (string, error) {
+		if e0 != nil || len(r0) == 0 {
+			return "", fmt.Errorf("concurrent Evaluate refused the registered origin: %v", e0)
+		}
+		if e1 == nil || e2 == nil || r1 != nil || r2 != nil {
+			return "", fmt.Errorf("concurrent Evaluate served an unregistered spelling of the origin name")
 		}
 		return "ok", nil
 	}
@@ -1134,6 +1173,7 @@ var scenarios = []scenario{
 	{"type2-evaluate-evaluate-tokenkeyid-on-an-issuer-with-a-history", t2ScenarioHist},
 	{"ecdsa-two-blinding-keys-two-contexts", ecdsaScenario(2)},
 	{"ecdsa-sign-on-three-curves", ecdsaCurvesScenario},
+	{"type3-evaluate-registered-origin-and-two-other-spellings", t3SpellingsScenario},
 	{"ed25519-one-blinding-key-shared-by-three-calls", ed25519Scenario(4)},
 	{"type2-evaluate-evaluate-tokenkeyid-key-assembled-from-numbers", t2ScenarioRaw},
 	{"type3-attester-verifyrequest-honest-forged-honest", attesterScenario},
